@@ -142,4 +142,32 @@ def describe (s0 s : FS) : List String :=
   let l := f "vault" .vault ++ f "folder-log" .log ++ f "other" .tmp ++ f "other" .snap
   if l = [] then ["unchanged"] else l.eraseDups
 
+/-! ## database backend: every call is one transaction (atomic), an operation is a list of calls -/
+
+structure DB where
+  vault : List Bytes          -- folder_secrets rows of the folder
+  log : List Bytes            -- folder_events rows of the folder, in order
+deriving DecidableEq, Repr
+
+inductive Txn where
+  | setVault (rows : List Bytes)        -- insert / update / delete of secret rows, header columns
+  | appendLog (recs : List Bytes)       -- `insert_records` (one transaction for the whole batch)
+  | replaceLog (recs : List Bytes)      -- `replace_all_events`: delete + insert in one transaction
+  | truncateLog (keep : Nat)            -- `rewind`: delete after a row id
+deriving Repr
+
+def Txn.run (s : DB) : Txn → DB
+  | .setVault rows => { s with vault := rows }
+  | .appendLog recs => { s with log := s.log ++ recs }
+  | .replaceLog recs => { s with log := recs }
+  | .truncateLog k => { s with log := s.log.take k }
+
+/-- a crash leaves the state after some prefix of the calls -/
+def dbCrashStates (s : DB) : List Txn → List DB
+  | [] => [s]
+  | t :: ts => s :: dbCrashStates (t.run s) ts
+
+/-- a folder edit on the database backend: the secret rows first, the event afterwards (two calls) -/
+def dbFolderEdit (newVault : List Bytes) (event : Bytes) : List Txn := [.setVault newVault, .appendLog [event]]
+
 end Sos.Crash
